@@ -51,7 +51,21 @@ unsafe_builtins = {
     'display',
     'license',
     'dict',  # Constructor-based type escapes
+    'open',  # File system access
+    'input',  # Reads from the process' standard input
+    'print',  # Writes to the process' standard output
+    'eval',  # Arbitrary code execution and compilation
+    'exec',
+    'compile',
+    'exit',  # Process termination and interactive helpers
+    'quit',
+    'help',
+    'delattr',  # Attribute manipulation (see getattr/setattr)
 }
+
+# str.format() and str.format_map() resolve attribute and index lookups written in
+# the format string at run time ('{0.__class__}'), where the AST walk cannot see them
+unsafe_methods = {'format', 'format_map'}
 
 
 class SecurityError(RuntimeError):
@@ -203,6 +217,9 @@ def _check_safe_eval_cached(
 
         if isinstance(node, ast.Attribute) and node.attr.startswith('__'):
             raise SecurityError(f"Dunder access prohibited: .{node.attr}")
+
+        if isinstance(node, ast.Attribute) and node.attr in unsafe_methods:
+            raise SecurityError(f"Run-time format strings prohibited: .{node.attr}()")
 
         if isinstance(node, ast.Name):
             if isinstance(node.ctx, ast.Load) and node.id not in context:
